@@ -28,11 +28,10 @@ example : ∀ k ps, (k, ps) ∈ sortKeys (fcpLoop (sqDistInt [[1]] [[0]]) 3 (can
 /-- every candidate inside the cutoff is listed in the group of its distance as itself or reversed, never both,
 nothing twice. -/
 theorem C19_find_pairs_exact (d2 : Coup → Int) (cut2 : Int) (cands : List Coup)
-    (hsym : ∀ c, d2 (rev c) = d2 c) (hnd : cands.Nodup) :
+    (hnd : cands.Nodup) :
     ∀ c ∈ cands, 0 < d2 c → d2 c ≤ cut2 →
       ∃ ps, (d2 c, ps) ∈ sortKeys (fcpLoop d2 cut2 cands) ∧ ps.Nodup ∧ (c ∈ ps ∨ rev c ∈ ps) ∧
         (c ≠ rev c → ¬ (c ∈ ps ∧ rev c ∈ ps)) := by
-  have _ := hsym
   have h2 := fcpLoop_inv2 d2 cut2 cands hnd
   intro c hc h0 h1
   obtain ⟨ps, hps, hor⟩ := h2.ex c hc h0 h1
@@ -72,7 +71,7 @@ example : ∃ ps, ((1 : Int), ps) ∈ sortKeys (fcpLoop (sqDistInt [[1]] [[0]]) 
     (((0, 0, [-1]) : Coup) ≠ rev (0, 0, [-1]) → ¬ ((0, 0, [-1]) ∈ ps ∧ rev (0, 0, [-1]) ∈ ps)) := by
   have e : sqDistInt [[1]] [[0]] (0, 0, [-1]) = 1 := by decide
   rw [← e]
-  exact C19_find_pairs_exact (sqDistInt [[1]] [[0]]) 3 (candidates 1 1 2) (C19_sqDist_symm _ _)
+  exact C19_find_pairs_exact (sqDistInt [[1]] [[0]]) 3 (candidates 1 1 2)
     (C19_find_pairs_candidates 1 1 2).1 (0, 0, [-1]) ((mem_candidates 1 1 2 _).2 (by decide))
     (by decide) (by decide)
 
@@ -96,7 +95,7 @@ theorem C19_find_coupling_pairs (basis pos : List (List Int)) (m : Nat) (cutoff2
     subst h
     have h1 := C19_find_pairs_groups (sqDistInt basis pos) (cutoff2.getD ((m : Int) * m - 1))
       (candidates pos.length basis.length m)
-    exact ⟨h1.1, h1.2, C19_find_pairs_exact _ _ _ (C19_sqDist_symm basis pos)
+    exact ⟨h1.1, h1.2, C19_find_pairs_exact _ _ _
       (C19_find_pairs_candidates _ _ _).1⟩
   · cases h
 
